@@ -69,6 +69,8 @@ CFGS = {
                      Clients='{"c1", "c2"}', PeerIPs='{"A"}', PeerPorts='{1}', ChanNums='{16384}', ReqFams='{0, 4}',
                      LifeReqs='<- MCLifeAbsent0', Txids='{"t1", "t2"}', Toks='{"none", "even", "bogus", "c1", "c2"}',
                      DefaultLife='40', PermTO='35', ChanTO='35', ResvTO='30', MaxDepth='5'),
+    "GEN_recycle": dict(kind="gen", doc="identifier recycling: one channel number, two ports of one peer IP; bindings lapse and the number is bound again (small alphabet: long random histories)",
+                        PeerIPs='{"A"}', PeerPorts='{1, 2}', ChanNums='{16384}', PermSeqs='<- MCPermSeqs1', MaxDepth='7'),
     "GEN_mtu": dict(kind="gen", doc="payload lengths / contents through both encapsulations and both directions",
                     PeerIPs='{"A"}', PeerPorts='{1}', ChanNums='{16384}', Lens='<- MCLensMTU',
                     Pays='{"p", "stunlike", "chanlike", "zeros"}', MaxDepth='4'),
